@@ -195,6 +195,28 @@ func (in *inliner) prepareDispatch(d *dispatch, tg *inlTarget, ce *ast.CallExpr)
 			if info.Defs[x] != nil {
 				d.declared[x.Name] = true
 			}
+		case *ast.AssignStmt:
+			// statements placed in the body earlier in this round carry no type information:
+			// their declarations are collected by syntax
+			if x.Tok == token.DEFINE {
+				for _, l := range x.Lhs {
+					if id, ok := l.(*ast.Ident); ok {
+						d.declared[id.Name] = true
+					}
+				}
+			}
+		case *ast.ValueSpec:
+			for _, id := range x.Names {
+				d.declared[id.Name] = true
+			}
+		case *ast.RangeStmt:
+			if x.Tok == token.DEFINE {
+				for _, e := range []ast.Expr{x.Key, x.Value} {
+					if id, ok := e.(*ast.Ident); ok {
+						d.declared[id.Name] = true
+					}
+				}
+			}
 		}
 		return true
 	})
